@@ -7,7 +7,7 @@ import time
 
 VERIF = os.path.dirname(os.path.dirname(os.path.dirname(os.path.abspath(__file__))))
 if os.environ.get("VF_REPO"):      # scratch run against another checkout: keep /verif/evidence (which describes /repo) untouched
-    _alt = os.path.join(VERIF, ".cache", "alt", os.path.basename(os.environ["VF_REPO"].rstrip("/")))
+    _alt = os.path.join(VERIF, ".cache", "alt", os.environ["VF_REPO"].strip("/").replace("/", "_"))
     EVIDENCE = os.path.join(_alt, "evidence")
     REPLAY = os.path.join(_alt, "replay")
     os.makedirs(EVIDENCE, exist_ok=True)
